@@ -230,4 +230,38 @@ Proof.
   rewrite Forall_forall in F. apply map_ext_in. intros sh Hsh.
   rewrite (rows_faithful sh (F sh Hsh)), skipn_map, map_map. simpl. now rewrite map_id.
 Qed.
+
+(* ---- frame of a batch and of a toggle: what an incremental checkpoint update has to rewrite (SamplerCodec.batch_frame) ---- *)
+Lemma upd_nth_other {A} (f : A -> A) i j l : j <> i -> nth_error (upd_nth i f l) j = nth_error l j.
+Proof.
+  revert i j; induction l as [|x l IH]; intros [|i] [|j] H; simpl; auto; try congruence.
+Qed.
+Lemma upd_nth_length {A} (f : A -> A) i l : length (upd_nth i f l) = length l.
+Proof. revert i; induction l as [|x l IH]; intros [|i]; simpl; auto. Qed.
+Theorem batch_frame_abs s idx rounds vals s' : step s (EvAddSamples idx rounds vals) = Some s' ->
+  exists i, (match idx with Some k => i = k | None => S i = length (shells s) end) /\
+    (forall j, j <> i -> nth_error (shells s') j = nth_error (shells s) j) /\
+    (forall sh sh', nth_error (shells s) i = Some sh -> nth_error (shells s') i = Some sh' ->
+        bnd sh' = bnd sh /\ nsample_exp sh' = nsample_exp sh /\ end_exp sh' = end_exp sh) /\
+    length (shells s') = length (shells s) /\ explored s' = explored s /\ discard s' = discard s /\
+    t_pts s' = t_pts s /\ t_lls s' = t_lls s /\ t_bls s' = t_bls s.
+Proof.
+  simpl. unfold add_samples. destruct (length (shells s)) as [|nm1] eqn:EL; [discriminate|].
+  match goal with |- (if ?c then _ else _) = _ -> _ => destruct c; [discriminate|] end.
+  set (i := match idx with None => nm1 | Some i => i end).
+  destruct (nth_error (shells s) i) as [sh0|] eqn:En; [|discriminate].
+  match goal with |- (match ?o with _ => _ end) = _ -> _ => destruct o as [a|]; [|discriminate] end.
+  match goal with |- (if ?c then _ else _) = _ -> _ => destruct c; [discriminate|] end.
+  match goal with |- (match ?o with _ => _ end) = _ -> _ => destruct o as [[[tp tl] tb]|]; [|discriminate] end.
+  intros E; inversion E; subst s'; clear E. simpl. exists i. split; [destruct idx; subst i; auto|].
+  split; [intros j Hj; now apply upd_nth_other|]. split.
+  - intros sh sh' H1 H2. rewrite En in H1. inversion H1; subst sh.
+    assert (G : forall l k x (f : shell -> shell), nth_error l k = Some x -> nth_error (upd_nth k f l) k = Some (f x)).
+    { induction l as [|y l IH]; intros [|k] x f H; simpl in *; try discriminate; [inversion H; subst; reflexivity|now apply IH]. }
+    rewrite (G _ _ _ _ En) in H2. inversion H2; subst sh'. simpl. auto.
+  - repeat split; auto. rewrite upd_nth_length. exact EL.
+Qed.
+Theorem toggle_frame_abs s d s' : step s (EvSetDiscard d) = Some s' ->
+  shells s' = shells s /\ explored s' = explored s /\ n_like s' = n_like s /\ t_pts s' = t_pts s /\ t_from s' = t_from s.
+Proof. simpl. unfold set_discard. intros E; inversion E; subst; simpl. auto. Qed.
 End Thm.
